@@ -38,7 +38,7 @@ fn stalls(proxy: bool) -> Vec<&'static str> {
 
 /// Drives a hostile client to its stall point and returns the open socket(s) to be held.
 async fn hostile(server: SocketAddr, proxy: bool, stall: &str, n: usize) -> Option<McClient> {
-    let src: SocketAddr = format!("198.51.100.{}:4000", 20 + n).parse().unwrap();
+    let src: SocketAddr = format!("198.51.{}.{}:4000", 100 + n / 200, 20 + n % 200).parse().unwrap();
     let mut c = McClient::connect(server, Some("127.0.0.2".parse().unwrap())).await.ok()?;
     let hdr = proxy_v1(src, server);
     match stall {
@@ -91,7 +91,7 @@ fn run_schedule(spec: &Spec) -> (Duration, bool, String, bool) {
         let mut adapters = NetAdapters::new();
         // a hostile client that reaches the configuration phase waits for routing forever: the backend never
         // answers for *its* address (the well-behaved client has another effective address)
-        adapters.blocked_ips = if spec.proxy { (0..spec.hostile).map(|n| format!("198.51.100.{}", 20 + n).parse().unwrap()).collect() } else { vec!["127.0.0.2".parse().unwrap()] };
+        adapters.blocked_ips = if spec.proxy { (0..spec.hostile).map(|n| format!("198.51.{}.{}", 100 + n / 200, 20 + n % 200).parse().unwrap()).collect() } else { vec!["127.0.0.2".parse().unwrap()] };
         let cfg = ListenerCfg { proxy: spec.proxy.then_some((true, true)), limiter: spec.limiter.then_some((3600, 2)), timeout: Duration::from_secs(20), auth_secret: None };
         let running = start_listener(&cfg, adapters).await;
         let mut held = vec![];
@@ -156,7 +156,7 @@ pub fn run(cli: Cli) -> ! {
     for proxy in [false, true] {
         for limiter in [false, true] {
             for stall in stalls(proxy) {
-                for hostile in [1usize, 2] {
+                for hostile in if thorough { vec![1usize, 2, 9, 40] } else { vec![1usize, 2, 9] } {
                     specs.push(Spec { proxy, limiter, stall: stall.into(), hostile, login: false });
                     if thorough {
                         specs.push(Spec { proxy, limiter, stall: stall.into(), hostile, login: true });
@@ -200,7 +200,7 @@ pub fn run(cli: Cli) -> ! {
     rep.set("slowest_served_ms", json!(max_ms.load(Ordering::Relaxed)));
     rep.set("bound_ms", json!(BOUND.as_millis() as u64));
     rep.set("exhaustive", json!(true));
-    rep.set("rule", json!("every stall point (silent after connect, 1 byte / half of the PROXY header, fewer bytes than any header, header complete, mid-frame, after handshake, after login start, after the encryption request, in configuration never echoing, slow garbage) x PROXY protocol on/off x limiter on/off x 1-2 hostile clients; the well-behaved client has another effective address; each schedule is distinct"));
+    rep.set("rule", json!("every stall point (silent after connect, 1 byte / half of the PROXY header, fewer bytes than any header, header complete, mid-frame, after handshake, after login start, after the encryption request, in configuration never echoing, slow garbage) x PROXY protocol on/off x limiter on/off x 1, 2, 9 (thorough: 40) hostile clients; the well-behaved client has another effective address; each schedule is distinct"));
     rep.sample(json!({"spec": specs[0]}));
     rep.sample(json!({"spec": specs[specs.len() - 1]}));
     rep.assume("real time on loopback: 'never' is a 2 s deadline where the correct behaviour takes a few milliseconds; OS scheduling of the sockets is not controlled");
